@@ -77,7 +77,8 @@ def rand_policy(rng, ssrc=None, ssrc_type=SSRC_SPECIFIC, valid=True, mki=None, s
     if AEAD:
         bits = rng.choice([128, 128, 256])
         rtp = gcm_cp(bits, rng.choice([16, 16, 8]), rtp[5])
-        rtcp = gcm_cp(bits, rng.choice([16, 16, 8]), rtcp[5])
+        # unencrypted SRTCP (RFC 7714 9.3: whole packet as AAD, bare tag) gets as much weight as encrypted SRTCP
+        rtcp = gcm_cp(bits, rng.choice([16, 16, 8]), rng.choice([3, 3, 2, 2, 0, 1]))
     if safe_tags:
         # tag lengths above SRTP_MAX_TAG_LEN and key lengths above 256 are exercised by C10 only
         rtp = rtp[:4] + (min(rtp[4], 16),) + rtp[5:]
